@@ -1,5 +1,6 @@
 """C05 — non-decimal radix string->float: tables, key agreement, beliefs (DESIGN §4)."""
 from rules import tbl_parse_float as T
+from rules import pipeline as P
 from rules.core import guarded
 
 INFO = {
@@ -21,3 +22,6 @@ def run(col, configs, tier):
         guarded(col, T.rule_split_radix, facts, nondec)
         if "radix" in name:
             guarded(col, T.rule_bellerophon, facts, nondec)
+            guarded(col, P.rule_error_units, facts)
+        guarded(col, P.rule_same_base, facts)
+        guarded(col, P.rule_slow_fallback, facts)
